@@ -15,12 +15,12 @@ SPEC = dict(
          "goroutines (Emit / EmitLazy / EmitFollowup / EmitFollowupLazy, parents = latest id, first id ever (stale after a reconnect) or "
          "InvalidID), buffer sizes 1-64, GOMAXPROCS 1-16, per-connection faults (dial refused, write error inside the node-information "
          "frame, write error at an arbitrary byte offset later, peer that stops reading = stalled writer, peer close), re-stalls, Close "
-         "after / during the emitters / while the writer is stalled; 1200 scenarios in quick, 30000 in thorough. Observed: the ids "
+         "after / during the emitters / while the writer is stalled; 900 scenarios in quick, 30000 in thorough. Observed: the ids "
          "returned to every emitter and the bytes each connection received, decoded with the package's own Decoder into "
          "node-info / event(tag) / follow-up(tag,parent seq) / dropped(n). The extracted oracle `accepts` (proved sound: "
          "C28_oracle_sound) is evaluated on every observed run; compared string = verdict, always expected `ok`. Also `blocked` when an "
          "Emit* call takes > 4 s (emitters keep running while the writer is stalled; the stall only ends through emitter 0's progress or "
-         "a 6 s watchdog), `hang`, `GOPANIC emitter`. A subset (200 / 3000 scenarios) is re-run with a `go build -race` binary: any "
+         "a 6 s watchdog), `hang`, `GOPANIC emitter`. A further 150 / 3000 scenarios (other seed) is re-run with a `go build -race` binary: any "
          "DATA RACE report is a violation. non-trivial = verdict ok with delivered events and (a dropped-events record or >= 2 "
          "established connections); distinct by input",
     assumptions=[
@@ -106,11 +106,11 @@ def _race_run(a, lib):
     if a.replay:
         lines = [l for l in open(a.replay) if l.strip() and not l.startswith("#")]
     else:
-        k = 3000 if a.tier == "thorough" else 200
+        k = 3000 if a.tier == "thorough" else 150
         g = subprocess.run([out, "gen", "--seed", str(a.seed + 7919), "--tier", "quick"], stdout=subprocess.PIPE,
                            env=lib.go_env(), text=True, timeout=600)
         lines = [l + "\n" for l in g.stdout.splitlines() if l and not l.startswith("#")]
-        while len(lines) < k:      # quick generator yields 1200 scenarios per seed
+        while len(lines) < k:      # quick generator yields 900 scenarios per seed
             g = subprocess.run([out, "gen", "--seed", str(a.seed + 7919 + len(lines)), "--tier", "quick"], stdout=subprocess.PIPE,
                                env=lib.go_env(), text=True, timeout=600)
             lines += [l + "\n" for l in g.stdout.splitlines() if l and not l.startswith("#")]
